@@ -49,7 +49,8 @@ class ParticleReleaser(Iterator[pd.DataFrame]):
         datatypes = modules["state"].dtypes
         self.modules = modules
         self.start_time = timer.start_time
-        self.stop_time = timer.stop_time
+        # The simulation ends with the last whole time step
+        self.stop_time = timer.step2time(timer.Nsteps)
         self.time_reversal = timer.time_reversal
 
         logger.info("Initializing the particle releaser")
